@@ -93,7 +93,14 @@ func (t *Dense) Norm(ord NormOrder, axes ...int) (retVal *Dense, err error) {
 	// simple case
 	if len(axes) == 0 {
 		if ord.IsUnordered() || (ord.IsFrobenius() && dims == 2) || (ord == Norm(2) && dims == 1) {
-			backup := t.AP
+			// the flat vector is a private handle on the operand's elements (on a copy of them, if they are not one block of storage):
+			// the operand itself is only read, as other goroutines may be reading it too
+			flat := t
+			if t.RequiresIterator() {
+				flat = t.Materialize().(*Dense)
+			}
+			flat = flat.ShallowClone()
+
 			ap := makeAP(1)
 			defer ap.zero()
 
@@ -101,8 +108,8 @@ func (t *Dense) Norm(ord NormOrder, axes ...int) (retVal *Dense, err error) {
 			ap.SetShape(t.Size())
 			ap.lock()
 
-			t.AP = ap
-			if ret, err = Dot(t, t); err != nil { // returns a scalar
+			flat.AP = ap
+			if ret, err = Dot(flat, flat); err != nil { // returns a scalar
 				err = errors.Wrapf(err, opFail, "Norm-0")
 				return
 			}
@@ -116,7 +123,6 @@ func (t *Dense) Norm(ord NormOrder, axes ...int) (retVal *Dense, err error) {
 			case Float32:
 				retVal.SetF32(0, math32.Sqrt(retVal.GetF32(0)))
 			}
-			t.AP = backup
 			return
 		}
 
